@@ -190,6 +190,11 @@ func GenRulesFile(t *rapid.T, o RulesOpt) *RulesFile {
 			if o.IDComments {
 				r.Comments = []string{"# see also id:" + id + " below"}
 			}
+		case 3:
+			if o.IDComments {
+				// a commented-out previous version of the rule
+				r.Comments = []string{"#SecRule ARGS \"@rx commented-out\" \\", "#    \"id:" + id + ",\\", "#    phase:2,\\", "#    t:none\""}
+			}
 		}
 		r.Msg = rapid.SampledFrom([]string{"", "Attack detected", "Rule " + id, `matched "@rx thing`}).Draw(t, "msg")
 		f.Rules = append(f.Rules, r)
